@@ -1,8 +1,288 @@
-//! C18 observations (see props/c18.py for the consumer).
+//! C18 observations: every sweep path x values x base setups (configuration before / after through SPDC::as_config),
+//! unknown paths, two-parameter sweeps (order, values, spectrum values vs individually constructed setups).
+//! Consumer: props/c18.py.
 #![allow(unused_imports, dead_code)]
 use crate::common::*;
-use serde_json::json;
+use serde_json::{json, Map, Value};
+use spdcalc::dim::f64prefixes::*;
+use spdcalc::dim::ucum::*;
+use spdcalc::prelude::Integrator;
+use spdcalc::utils::Steps2D;
+use spdcalc::*;
 
-pub fn run(_args: &[String]) {
-  emit(json!({"kind": "not_implemented", "property": "C18"}));
+pub const PATHS: [&str; 25] = [
+  "crystal.phi_deg", "crystal.theta_deg", "crystal.length_um", "crystal.temperature_c",
+  "signal.theta_deg", "signal.theta_external_deg", "signal.phi_deg", "signal.frequency_thz", "signal.wavelength_nm", "signal.waist_um", "signal.waist_position_um",
+  "idler.theta_deg", "idler.theta_external_deg", "idler.phi_deg", "idler.frequency_thz", "idler.wavelength_nm", "idler.waist_um", "idler.waist_position_um",
+  "pump.frequency_thz", "pump.wavelength_nm", "pump.waist_um", "pump.average_power_mw", "pump.bandwidth_nm",
+  "periodic_poling.poling_period_um", "deff_pm_per_volt",
+];
+
+fn bases() -> Vec<(&'static str, SPDC)> {
+  let mut out = Vec::new();
+  out.push(("default_ktp_unpoled", SPDC::default()));
+  let ppktp = json!({
+    "crystal": {"kind": "KTP", "pm_type": "e->eo", "phi_deg": 0, "theta_deg": 90, "length_um": 2000, "temperature_c": 20},
+    "pump": {"wavelength_nm": 775, "waist_um": 100, "bandwidth_nm": 5.35, "average_power_mw": 1},
+    "signal": {"wavelength_nm": 1550, "phi_deg": 0, "theta_deg": 0, "waist_um": 100, "waist_position_um": "auto"},
+    "idler": "auto",
+    "periodic_poling": {"poling_period_um": "auto", "apodization": {"kind": "Gaussian", "parameter": {"fwhm_um": 1600.0}}},
+    "deff_pm_per_volt": 7.6
+  });
+  if let Ok(s) = SPDC::from_json(ppktp.to_string()) {
+    out.push(("ppktp_gaussian", s));
+  }
+  let bbo = json!({
+    "crystal": {"kind": "BBO_1", "pm_type": "e->eo", "phi_deg": 0, "theta_deg": 42.5, "length_um": 1500, "temperature_c": 30},
+    "pump": {"wavelength_nm": 405, "waist_um": 80, "bandwidth_nm": 0.5, "average_power_mw": 12.5},
+    "signal": {"wavelength_nm": 810, "phi_deg": 15, "theta_deg": 2.25, "waist_um": 60, "waist_position_um": -350.5},
+    "idler": {"wavelength_nm": 810, "phi_deg": 195, "theta_deg": 2.25, "waist_um": 70, "waist_position_um": -420.25},
+    "deff_pm_per_volt": 2.2
+  });
+  if let Ok(s) = SPDC::from_json(bbo.to_string()) {
+    out.push(("bbo_noncollinear", s));
+  }
+  out
+}
+
+/// configuration as path -> value (numbers as bit patterns, everything else as JSON text)
+fn flat_config(spdc: &SPDC) -> Value {
+  let cfg = SPDCConfig::from(spdc.clone());
+  let v = serde_json::to_value(&cfg).unwrap_or(Value::Null);
+  let mut out = Map::new();
+  fn walk(prefix: &str, v: &Value, out: &mut Map<String, Value>) {
+    match v {
+      Value::Object(m) => {
+        for (k, x) in m {
+          let p = if prefix.is_empty() { k.clone() } else { format!("{}.{}", prefix, k) };
+          walk(&p, x, out);
+        }
+      }
+      Value::Number(n) => {
+        out.insert(prefix.to_string(), json!({"n": fx(n.as_f64().unwrap_or(f64::NAN))}));
+      }
+      other => {
+        out.insert(prefix.to_string(), json!({"t": other.to_string()}));
+      }
+    }
+  }
+  walk("", &v, &mut out);
+  Value::Object(out)
+}
+
+/// raw (unrounded) state: every numeric field of the setup in SI units (the model's record), every f64 as its bit pattern
+fn beam_raw(b: &spdcalc::prelude::Beam) -> Value {
+  json!({"waist_x": fx(*(b.waist().x / M)), "waist_y": fx(*(b.waist().y / M)), "omega": fx(*(b.frequency() / (RAD / S))),
+    "theta": fx(*(b.theta_internal() / RAD)), "phi": fx(*(b.phi() / RAD)), "wavelength_m": fx(*(b.vacuum_wavelength() / M)),
+    "polarization": format!("{:?}", b.polarization())})
+}
+
+fn apod_raw(ap: &Apodization) -> Value {
+  match ap {
+    Apodization::Off => json!({"kind": "Off"}),
+    Apodization::Gaussian { fwhm } => json!({"kind": "Gaussian", "p": fx(*(*fwhm / M))}),
+    Apodization::Bartlett(a) => json!({"kind": "Bartlett", "p": fx(*a)}),
+    Apodization::Blackman(a) => json!({"kind": "Blackman", "p": fx(*a)}),
+    Apodization::Connes(a) => json!({"kind": "Connes", "p": fx(*a)}),
+    Apodization::Cosine(a) => json!({"kind": "Cosine", "p": fx(*a)}),
+    Apodization::Hamming(a) => json!({"kind": "Hamming", "p": fx(*a)}),
+    Apodization::Welch(a) => json!({"kind": "Welch", "p": fx(*a)}),
+    Apodization::Interpolate(v) => json!({"kind": "Interpolate", "values": fxs(v)}),
+  }
+}
+
+fn raw_state(spdc: &SPDC) -> Value {
+  let pp = match &spdc.pp {
+    PeriodicPoling::Off => json!({"on": false}),
+    PeriodicPoling::On { period, sign, apodization } => json!({"on": true, "period_m": fx(*(*period / M)),
+      "sign": if *sign == Sign::POSITIVE { "POSITIVE" } else { "NEGATIVE" }, "apodization": apod_raw(apodization)}),
+  };
+  json!({
+    "signal": beam_raw(&spdc.signal), "idler": beam_raw(&spdc.idler), "pump": beam_raw(&spdc.pump),
+    "crystal": {"phi": fx(*(spdc.crystal_setup.phi / RAD)), "theta": fx(*(spdc.crystal_setup.theta / RAD)),
+      "length": fx(*(spdc.crystal_setup.length / M)), "temperature": fx(*(spdc.crystal_setup.temperature / K)),
+      "kind": format!("{}", spdc.crystal_setup.crystal), "pm_type": format!("{}", spdc.crystal_setup.pm_type),
+      "counter_propagation": spdc.crystal_setup.counter_propagation},
+    "pump_average_power": fx(*(spdc.pump_average_power / W)), "pump_bandwidth": fx(*(spdc.pump_bandwidth / M)),
+    "pump_spectrum_threshold": fx(spdc.pump_spectrum_threshold),
+    "signal_waist_position": fx(*(spdc.signal_waist_position / M)), "idler_waist_position": fx(*(spdc.idler_waist_position / M)),
+    "deff": fx(*(spdc.deff / (M / V))),
+    "pp": pp,
+  })
+}
+
+fn single(base: &SPDC, path: &str, v: f64) -> Result<SPDC, String> {
+  let it = SPDCIter::try_new(base.clone(), path, path, Steps2D((v, v, 1), (v, v, 1)))?;
+  it.into_iter().next().ok_or_else(|| "empty sweep".to_string())
+}
+
+fn jsi_of(spdc: &SPDC) -> f64 {
+  // the expression of SPDCIter::jsi_values, on one setup
+  let jsi = jsa_raw(spdc.signal.frequency(), spdc.idler.frequency(), spdc, Integrator::default()).norm_sqr();
+  if jsi == 0. {
+    0.
+  } else {
+    jsi * *(jsi_normalization(spdc.signal.frequency(), spdc.idler.frequency(), spdc) / JsiNorm::new(1.))
+  }
+}
+
+fn values_for(path: &str, rng: &mut Rng, n: usize) -> Vec<f64> {
+  let (lo, hi, fixed): (f64, f64, Vec<f64>) = if path.ends_with("theta_external_deg") {
+    (0., 12., vec![0., 1.5, 5.])
+  } else if path.starts_with("crystal.") && path.ends_with("theta_deg") {
+    (0., 90., vec![0., 45., 90.])
+  } else if path.ends_with("theta_deg") {
+    (-20., 20., vec![0., 2.5, -3.25, 179.5])
+  } else if path.ends_with("phi_deg") {
+    (0., 359.9, vec![0., 90., 180., 270.5])
+  } else if path.ends_with("length_um") {
+    (100., 30000., vec![500., 10000.])
+  } else if path.ends_with("temperature_c") {
+    (-40., 180., vec![20., 0., 150.25])
+  } else if path.ends_with("frequency_thz") {
+    (150., 800., vec![200., 193.4, 386.8])
+  } else if path.ends_with("wavelength_nm") {
+    (400., 2000., vec![775., 1550., 810.5])
+  } else if path.ends_with("waist_position_um") {
+    (-2000., 0., vec![0., -500., -123.4567])
+  } else if path.ends_with("waist_um") {
+    (5., 500., vec![35., 100.])
+  } else if path.ends_with("average_power_mw") {
+    (0.01, 500., vec![1., 250.])
+  } else if path.ends_with("bandwidth_nm") {
+    (0.01, 30., vec![0.5, 5.35])
+  } else if path.ends_with("poling_period_um") {
+    (2., 80., vec![46.5, 9.25])
+  } else {
+    (0.1, 30., vec![1., 7.6])
+  };
+  let mut vs = fixed;
+  for _ in 0..n {
+    // four decimals: the configuration view rounds to 1e-4, the property compares at that resolution
+    vs.push(((lo + (hi - lo) * rng.unit()) * 1e4).round() / 1e4);
+  }
+  vs
+}
+
+pub fn run(args: &[String]) {
+  let seed = arg_u64(args, 0, 1);
+  let n = arg_u64(args, 1, 3) as usize;
+  let nsweeps = arg_u64(args, 2, 6) as usize;
+  let mut rng = Rng::new(seed);
+  let bases = bases();
+  emit(json!({"kind": "bases", "names": bases.iter().map(|b| b.0).collect::<Vec<_>>()}));
+
+  // ---- every path x values x base
+  for (bname, base) in bases.iter() {
+    let before = flat_config(base);
+    let raw_before = raw_state(base);
+    for path in PATHS {
+      for v in values_for(path, &mut rng, n) {
+        let b2 = base.clone();
+        let r = guarded(move || single(&b2, path, v));
+        match r {
+          Ok(Ok(after)) => {
+            let ext = if path.ends_with("theta_external_deg") {
+              let b = if path.starts_with("signal") { &*after.signal } else { &*after.idler };
+              json!(fx(*(b.theta_external(&after.crystal_setup) / DEG)))
+            } else {
+              Value::Null
+            };
+            let sign_now = if path.starts_with("periodic_poling") {
+              let a2 = after.clone();
+              match guarded(move || PeriodicPoling::compute_sign(&a2.signal, &a2.pump, &a2.crystal_setup)) {
+                Ok(s) => json!(if s == Sign::POSITIVE { "POSITIVE" } else { "NEGATIVE" }),
+                Err(_) => json!("panic"),
+              }
+            } else {
+              Value::Null
+            };
+            emit(json!({"kind": "set", "base": bname, "path": path, "v": fx(v), "before": before, "after": flat_config(&after),
+              "raw_before": raw_before, "raw_after": raw_state(&after), "theta_external_deg": ext, "computed_sign": sign_now}));
+          }
+          Ok(Err(e)) => emit(json!({"kind": "set_err", "base": bname, "path": path, "v": fx(v), "err": e})),
+          Err(e) => emit(json!({"kind": "set_panic", "base": bname, "path": path, "v": fx(v), "msg": e})),
+        }
+      }
+    }
+  }
+
+  // ---- unknown paths
+  let mut unknown: Vec<String> = vec!["", "crystal", "crystal.kind", "crystal.pm_type", "pump.spectrum_threshold", "pump.theta_deg", "signal.bandwidth_nm",
+    "idler.average_power_mw", "periodic_poling.apodization", "periodic_poling.poling_period_nm", "deff", "deff_pm_per_volt ", " deff_pm_per_volt",
+    "signal.frequency_hz", "signal.wavelength_um", "crystal.length_mm", "Signal.theta_deg", "signal/theta_deg", "signal.theta_deg.", "pump.waist_position_um"]
+    .into_iter().map(String::from).collect();
+  for p in PATHS {
+    let s = p.to_string();
+    if s.len() > 2 {
+      let k = rng.below(s.len() - 1);
+      let mut t = s.clone();
+      t.remove(k);
+      unknown.push(t);
+      unknown.push(s.to_uppercase());
+      unknown.push(format!("{}x", s));
+    }
+  }
+  for u in unknown {
+    if PATHS.contains(&u.as_str()) {
+      continue;
+    }
+    let r = SPDCIter::try_new(SPDC::default(), u.clone(), "deff_pm_per_volt".to_string(), Steps2D((1., 2., 2), (1., 2., 2)));
+    let r2 = SPDCIter::try_new(SPDC::default(), "deff_pm_per_volt".to_string(), u.clone(), Steps2D((1., 2., 2), (1., 2., 2)));
+    emit(json!({"kind": "unknown", "path": u, "first_rejected": r.is_err(), "second_rejected": r2.is_err(),
+      "message": r.err().unwrap_or_default()}));
+  }
+  for p in PATHS {
+    let r = SPDCIter::try_new(SPDC::default(), p, p, Steps2D((1., 2., 2), (1., 2., 2)));
+    emit(json!({"kind": "known", "path": p, "accepted": r.is_ok()}));
+  }
+
+  // ---- two-parameter sweeps
+  let pairs: Vec<(&str, &str, (f64, f64), (f64, f64))> = vec![
+    ("crystal.theta_deg", "signal.wavelength_nm", (40., 50.), (1500., 1600.)),
+    ("signal.waist_um", "deff_pm_per_volt", (30., 50.), (1., 8.)),
+    ("crystal.temperature_c", "pump.wavelength_nm", (20., 80.), (770., 780.)),
+    ("periodic_poling.poling_period_um", "crystal.theta_deg", (30., 50.), (80., 100.)),
+    ("idler.waist_um", "signal.waist_um", (40., 120.), (50., 150.)),
+    ("pump.bandwidth_nm", "crystal.length_um", (0.5, 6.), (500., 4000.)),
+    ("signal.theta_deg", "idler.theta_deg", (0., 3.), (0., 3.)),
+    ("pump.average_power_mw", "pump.waist_um", (1., 100.), (50., 200.)),
+  ];
+  let shapes: [(usize, usize); 8] = [(3, 2), (1, 4), (4, 1), (2, 2), (1, 1), (5, 3), (2, 5), (3, 3)];
+  for k in 0..nsweeps {
+    let (p1, p2, r1, r2) = pairs[k % pairs.len()];
+    let (nx, ny) = shapes[(k + rng.below(8)) % 8];
+    let (bname, base) = &bases[k % bases.len()];
+    let steps = Steps2D((r1.0, r1.1, nx), (r2.0, r2.1, ny));
+    let it = match SPDCIter::try_new(base.clone(), p1, p2, steps) {
+      Ok(i) => i,
+      Err(e) => {
+        emit(json!({"kind": "sweep_err", "p1": p1, "p2": p2, "err": e}));
+        continue;
+      }
+    };
+    let setups: Vec<SPDC> = it.into_iter().collect();
+    let with_jsi = k < 4;
+    let swept_jsi: Vec<f64> = if with_jsi {
+      SPDCIter::try_new(base.clone(), p1, p2, steps).map(|i| i.jsi_values(Integrator::default())).unwrap_or_default()
+    } else {
+      Vec::new()
+    };
+    // the raw grid values as the iterator produces them
+    let grid: Vec<(f64, f64)> = steps.into_iter().collect();
+    let mut items = Vec::new();
+    for (j, s) in setups.iter().enumerate() {
+      // individually constructed: each parameter set on its own single-point sweep
+      let (v1, v2) = if j < grid.len() { grid[j] } else { (f64::NAN, f64::NAN) };
+      let indiv = single(base, p1, v1).and_then(|s1| single(&s1, p2, v2));
+      let (icfg, ijsi, same) = match &indiv {
+        Ok(x) => (flat_config(x), if with_jsi { fx(jsi_of(x)) } else { Value::Null }, *x == *s),
+        Err(_) => (Value::Null, Value::Null, false),
+      };
+      items.push(json!({"j": j, "v1": fx(v1), "v2": fx(v2), "cfg": flat_config(s), "indiv_cfg": icfg, "indiv_jsi": ijsi, "identical": same,
+        "jsi": if with_jsi && j < swept_jsi.len() { fx(swept_jsi[j]) } else { Value::Null }}));
+    }
+    emit(json!({"kind": "sweep", "base": bname, "p1": p1, "p2": p2, "r1": [fx(r1.0), fx(r1.1)], "r2": [fx(r2.0), fx(r2.1)], "nx": nx, "ny": ny,
+      "count": setups.len(), "jsi_count": swept_jsi.len(), "with_jsi": with_jsi, "items": items, "base_cfg": flat_config(base)}));
+  }
 }
